@@ -56,7 +56,7 @@ def install_contracts():
     try:
         import icontract
 
-        wrapped = icontract.snapshot(snap, name="before")(icontract.ensure(unchanged, error=PatchMutated)(orig))
+        wrapped = icontract.snapshot(snap, name="before", enabled=True)(icontract.ensure(unchanged, error=PatchMutated, enabled=True)(orig))
         CONTRACT["engine"] = "icontract"
     except Exception:  # noqa: BLE001
         def wrapped(self, data):
